@@ -139,6 +139,18 @@ CHECKS.update({
              "formula so that any other discrepancy is still a violation."),
 })
 
+
+CHECKS.update({
+    "C15": dict(level="model_checking", design="3/C15",
+        text="The real InferenceSetup / DeterministicInference / BulkData / ModelLikelihood / DeterministicLikelihood code is executed "
+             "with every data entry, time entry, theta and condition value symbolic and the simulator an uninterpreted function: "
+             "z3 proves data[n,t,m] = frame_n[measurement m][t], the (initial state, parameter vector, time points) triple handed to "
+             "the simulator per trajectory, cost = log-prior - (sum |data - sim|^p)^(1/p), history independence of a second "
+             "evaluation, and -inf outside the prior's support.",
+        note="pandas modelled as column-major frames; permutation invariance follows from the proven formula by commutativity; "
+             "the stochastic cost is not covered; N <= 4, M <= 3, T <= 3, p <= 3."),
+})
+
 NOT_YET = "check not built yet in this revision of /verif (work in progress; see DESIGN.md section 3 for the planned obligations)"
 
 
